@@ -416,18 +416,29 @@ func checkPercentRounding(c *core.Ctx, rule string) {
 		n++
 		var how []string
 		good := true
-		for _, o := range core.Origins(s.Common.Args[0]) {
+		var visit func(o ssa.Value, depth int)
+		visit = func(o ssa.Value, depth int) {
 			call, ok := o.(*ssa.Call)
 			if !ok {
 				good = false
 				how = append(how, describe(o))
-				continue
+				return
+			}
+			// the division may sit in a helper of the package that returns the percentage
+			if sc := call.Call.StaticCallee(); sc != nil && depth < 2 && sc.Blocks != nil && core.PkgOf(sc) == core.PkgOf(fn) {
+				for _, ro := range core.ResultOrigins(sc, 0) {
+					visit(ro, depth+1)
+				}
+				return
 			}
 			name := core.CalleeName(&call.Call)
 			how = append(how, name)
 			if name != "(*math/big.Int).Div" {
 				good = false
 			}
+		}
+		for _, o := range core.Origins(s.Common.Args[0]) {
+			visit(o, 0)
 		}
 		c.Check(good && len(how) > 0, rule, "UpdatePriceFix/percent-floor", s.Pos(), "the whole-percent price change compared with −10 is produced by big.Int.Div (rounds down)",
 			"the whole-percent price change compared with −10 is produced by "+strings.Join(how, ", ")+" instead of big.Int.Div: a drop strictly between 9 % and 10 % is truncated toward zero to −9 and no longer switches the validators' reward off")
